@@ -77,3 +77,235 @@ def nonlocal_effects(f: ast.AST) -> List[ast.AST]:
         elif isinstance(n, (ast.FunctionDef, ast.AsyncFunctionDef)) and any("cache" in source.src(d).lower() for d in n.decorator_list):
             bad.append(n.decorator_list[0])
     return bad
+
+
+# ------------------------------------------------------------------------------------------------------------------
+# in-place mutation of class-level mutable constants through a local alias
+# ------------------------------------------------------------------------------------------------------------------
+
+def class_mutable_constants(cls_node: ast.ClassDef) -> Set[str]:
+    """Names bound in the class body to a list/dict/set display (or list()/dict()/set() call): shared by every user."""
+    out: Set[str] = set()
+    for n in cls_node.body:
+        vals = []
+        if isinstance(n, ast.Assign):
+            vals = [(t, n.value) for t in n.targets]
+        elif isinstance(n, ast.AnnAssign) and n.value is not None:
+            vals = [(n.target, n.value)]
+        for t, v in vals:
+            if isinstance(t, ast.Name) and (isinstance(v, (ast.List, ast.Dict, ast.Set, ast.ListComp, ast.DictComp, ast.SetComp)) or (
+                    isinstance(v, ast.Call) and isinstance(v.func, ast.Name) and v.func.id in ("list", "dict", "set") )):
+                out.add(t.id)
+    return out
+
+
+def _alias_candidates(e: ast.AST) -> List[ast.AST]:
+    """expressions whose *object* (not a copy) may be the value of e"""
+    if isinstance(e, ast.BoolOp):
+        out: List[ast.AST] = []
+        for v in e.values:
+            out.extend(_alias_candidates(v))
+        return out
+    if isinstance(e, ast.IfExp):
+        return _alias_candidates(e.body) + _alias_candidates(e.orelse)
+    if isinstance(e, ast.NamedExpr):
+        return _alias_candidates(e.value)
+    return [e]
+
+
+def shared_constant_mutations(fn: ast.AST, constants: Set[str], class_names: Set[str], cfg=None) -> List[tuple]:
+    """[(mutation node, constant name, how)]: in-place mutations in ``fn`` of an object that may be the class-level constant
+    itself - directly (``cls.X.append``, ``cls.X += ..``) or through locals bound to it without a copy (flow-sensitive:
+    reaching definitions of the mutated local at the mutation site)."""
+    from . import flow
+    from .cfg import CFG, own_calls
+    roots = {"self", "cls"} | set(class_names)
+
+    def const_of(e: ast.AST) -> Optional[str]:
+        if isinstance(e, ast.Attribute) and e.attr in constants and isinstance(e.value, ast.Name) and e.value.id in roots:
+            return e.attr
+        return None
+    # quick exit: does the function mention a constant at all?
+    if not any(const_of(n) for n in ast.walk(fn)):
+        return []
+    cfg = cfg or CFG(fn)
+    rd_cache: dict = {}
+
+    def may_be_constant(e: ast.AST, here: int, depth: int = 0) -> Optional[str]:
+        if depth > 6:
+            return None
+        for c in _alias_candidates(e):
+            k = const_of(c)
+            if k:
+                return k
+            if isinstance(c, ast.Name):
+                if c.id not in rd_cache:
+                    rd_cache[c.id] = flow.reaching_defs(cfg, c.id)
+                for d in rd_cache[c.id].get(here, frozenset()):
+                    if d < 0:
+                        continue
+                    v = flow.def_value(cfg, d, c.id)
+                    if v is None:
+                        # an augmented assignment keeps the object: look through it
+                        a = cfg.nodes[d].ast
+                        if isinstance(a, ast.AugAssign) and isinstance(a.target, ast.Name):
+                            k = may_be_constant(a.target, d, depth + 1)
+                            if k:
+                                return k
+                        continue
+                    k = may_be_constant(v, d, depth + 1)
+                    if k:
+                        return k
+        return None
+    out: List[tuple] = []
+    for n in cfg.nodes:
+        a = n.ast
+        if a is None or n.kind not in ("stmt", "test", "for", "with"):
+            continue
+        if n.kind == "stmt" and isinstance(a, ast.AugAssign):
+            tgt = a.target
+            k = const_of(tgt) or (may_be_constant(tgt, n.id) if isinstance(tgt, ast.Name) else None)
+            if k:
+                out.append((a, k, "augmented assignment (in place for a list/dict/set)"))
+        if n.kind == "stmt" and isinstance(a, (ast.Assign, ast.Delete)):
+            tgts = a.targets
+            for t in tgts:
+                if isinstance(t, ast.Subscript):
+                    k = may_be_constant(t.value, n.id)
+                    if k:
+                        out.append((a, k, "item store/delete"))
+        if isinstance(a, (ast.FunctionDef, ast.AsyncFunctionDef, ast.ClassDef)):
+            continue
+        for c in own_calls(a):
+            if isinstance(c.func, ast.Attribute) and c.func.attr in (MUTATORS | {"sort", "reverse"}):
+                k = may_be_constant(c.func.value, n.id)
+                if k:
+                    out.append((c, k, ".%s()" % c.func.attr))
+    return out
+
+
+FRESH_CALLS = {"list", "dict", "set", "sorted", "tuple", "frozenset", "copy", "deepcopy", "deep_copy", "OrderedDict"}
+
+
+def stale_returns(fn: ast.AST, cfg=None) -> List[tuple]:
+    """[(return node, why)] for the returns of ``fn`` whose value is not provably a fresh object (a display, a comprehension,
+    list(..)/dict(..)/sorted(..)/x.copy()/deepcopy(..), a concatenation of such), following locals through their reaching
+    definitions.  A caller may then mutate what it receives without changing what the next caller receives."""
+    from . import flow
+    from .cfg import CFG
+    cfg = cfg or CFG(fn)
+    out: List[tuple] = []
+
+    def fresh(e: ast.AST, here: int, depth: int = 0) -> Optional[str]:
+        """None when fresh, else the reason"""
+        if depth > 8:
+            return "too deep"
+        if isinstance(e, (ast.List, ast.Dict, ast.Set, ast.ListComp, ast.DictComp, ast.SetComp, ast.Tuple, ast.Constant, ast.JoinedStr)):
+            return None
+        if isinstance(e, ast.Call):
+            name = e.func.id if isinstance(e.func, ast.Name) else e.func.attr if isinstance(e.func, ast.Attribute) else ""
+            if name in FRESH_CALLS or name in ("keys", "values", "items", "join", "format", "split"):
+                return None
+            return "%s(..) is not known to return a new object" % name
+        if isinstance(e, ast.BinOp):
+            return None
+        if isinstance(e, ast.IfExp):
+            return fresh(e.body, here, depth + 1) or fresh(e.orelse, here, depth + 1)
+        if isinstance(e, ast.BoolOp):
+            for v in e.values:
+                r = fresh(v, here, depth + 1)
+                if r:
+                    return r
+            return None
+        if isinstance(e, ast.Name):
+            rd = flow.reaching_defs(cfg, e.id).get(here, frozenset())
+            for d in rd:
+                if d < 0:
+                    return "'%s' is a parameter or undefined" % e.id
+                v = flow.def_value(cfg, d, e.id)
+                if v is None:
+                    a = cfg.nodes[d].ast
+                    if isinstance(a, ast.AugAssign):
+                        continue
+                    return "'%s' is not defined by a plain assignment" % e.id
+                r = fresh(v, d, depth + 1)
+                if r:
+                    return r
+            return None
+        if isinstance(e, (ast.Attribute, ast.Subscript)):
+            return "%s is an object that outlives the call" % source.src(e)
+        return "unrecognised expression"
+    for n in cfg.nodes:
+        if n.kind == "stmt" and isinstance(n.ast, ast.Return) and n.ast.value is not None:
+            why = fresh(n.ast.value, n.id)
+            if why:
+                out.append((n.ast, why))
+    return out
+
+
+# ------------------------------------------------------------------------------------------------------------------
+# class-level (process-wide) state
+# ------------------------------------------------------------------------------------------------------------------
+
+def class_level_effects(fn: ast.AST, class_names: Set[str]) -> List[tuple]:
+    """[(node, attribute, stored value or None, kind)] for every store / item store / deletion / mutator call in ``fn`` whose
+    target is rooted at ``cls`` or at the name of a class: state shared by every instance and every later call in the process."""
+    roots = {"cls"} | set(class_names)
+    locs = local_names(fn)
+    out: List[tuple] = []
+
+    def class_attr(e: ast.AST) -> Optional[str]:
+        """<root>.<attr>[...]... -> attr when root is cls / a class name (and not shadowed by a local)"""
+        chain = e
+        while isinstance(chain, ast.Subscript):
+            chain = chain.value
+        while isinstance(chain, ast.Attribute) and isinstance(chain.value, (ast.Attribute, ast.Subscript)):
+            chain = chain.value
+            while isinstance(chain, ast.Subscript):
+                chain = chain.value
+        if isinstance(chain, ast.Attribute) and isinstance(chain.value, ast.Name) and chain.value.id in roots \
+                and (chain.value.id == "cls" or chain.value.id not in locs):
+            return chain.attr
+        return None
+    for n in ast.walk(fn):
+        if isinstance(n, (ast.Assign, ast.AnnAssign, ast.AugAssign)):
+            targets = n.targets if isinstance(n, ast.Assign) else [n.target]
+            flat = []
+            for t in targets:
+                flat.extend(t.elts if isinstance(t, (ast.Tuple, ast.List)) else [t])
+            for t in flat:
+                if isinstance(t, (ast.Attribute, ast.Subscript)):
+                    a = class_attr(t)
+                    if a:
+                        out.append((n, a, n.value, "item store" if isinstance(t, ast.Subscript) else "store"))
+        elif isinstance(n, ast.Delete):
+            for t in n.targets:
+                if isinstance(t, (ast.Attribute, ast.Subscript)):
+                    a = class_attr(t)
+                    if a:
+                        out.append((n, a, None, "delete"))
+        elif isinstance(n, ast.Call) and isinstance(n.func, ast.Attribute) and n.func.attr in MUTATORS and isinstance(n.func.value, (ast.Attribute, ast.Subscript)):
+            a = class_attr(n.func.value)
+            if a:
+                out.append((n, a, n.args[0] if n.args else None, ".%s()" % n.func.attr))
+    return out
+
+
+def is_immutable_scalar(e: Optional[ast.AST]) -> bool:
+    """a value that cannot be changed by whoever receives it: constants, arithmetic on them, int()/float()/str()/bool()/len()"""
+    if e is None:
+        return False
+    if isinstance(e, ast.Constant):
+        return True
+    if isinstance(e, ast.UnaryOp):
+        return is_immutable_scalar(e.operand)
+    if isinstance(e, ast.BinOp) and isinstance(e.op, (ast.Add, ast.Sub, ast.Mult, ast.Div, ast.FloorDiv, ast.Mod, ast.Pow)):
+        # arithmetic; '+' of two lists is excluded by requiring at least one scalar-looking operand
+        return is_immutable_scalar(e.left) or is_immutable_scalar(e.right)
+    if isinstance(e, ast.Call) and isinstance(e.func, ast.Name) and e.func.id in ("int", "float", "str", "bool", "len", "round", "abs", "min", "max"):
+        return True
+    if isinstance(e, ast.Compare):
+        return True
+    if isinstance(e, ast.JoinedStr):
+        return True
+    return False
